@@ -533,10 +533,11 @@ package tex
 //@   maypanic
 //@   ensures #count n >= 0 && n == iopos - old(iopos) && blen(b) == old(blen(b)) + n && bvalid(b) && b.lastRead == 0
 //@   ensures #eofisnoerror err != io.EOF
+//@   ensures #errpassed (iolasterr == io.EOF ==> err == nil) && (iolasterr != io.EOF ==> err == iolasterr) && iolasterr != nil
 //@   ensures #kept forall i int :: { at(b, i) } 0 <= i && i < old(blen(b)) ==> at(b, i) == old(at(b, i))
 //@   ensures #appended forall q int :: { at(b, q) } old(blen(b)) <= q && q < blen(b) ==> at(b, q) == elt(iosrc, old(iopos), q - old(blen(b)))
 //@   ensures_panic true
-//@   modifies b.buf, b.off, b.lastRead, iopos, region($alloc), b.buf[0:cap(b.buf)]
+//@   modifies b.buf, b.off, b.lastRead, iopos, iolasterr, region($alloc), b.buf[0:cap(b.buf)]
 //@   loop 1
 //@     invariant #count n >= 0 && n == iopos - old(iopos) && blen(b) == old(blen(b)) + n && bvalid(b) && b.lastRead == 0 && iovalid() && io.EOF != nil && nalloc() >= old(nalloc()) && ((arrid(b.buf) == old(arrid(b.buf)) && off(b.buf) == old(off(b.buf)) && cap(b.buf) == old(cap(b.buf))) || isfresh(b.buf))
 //@     invariant #kept forall i int :: { at(b, i) } 0 <= i && i < old(blen(b)) ==> at(b, i) == old(at(b, i))
